@@ -81,6 +81,29 @@ def cases(tier, seed):
             if has_model and variant == "direct":
                 out.append(E.Case("jet-%s-%s-int" % (name, variant), prog, interpret=True, validate=True, extra_points=(24 if tier == "quick" else 200),
                                   tags={"jet": name, "variant": variant, "mode": "interpreted (validated against the C jet)"}))
+    # the same calls with the types WRITTEN the way the library's signature table prints them - with the builtin alias names
+    # (Ctx8, Pubkey, Message64, Gej, Ge, Fe, Scalar, ...): every jet whose signature mentions an alias, arguments through variables
+    for j in jets:
+        name = j["jet"]
+        if name in RESERVED or (j["params"] == j["rparams"] and j["result"] == j["rresult"]):
+            continue
+        prog, ptys, rty = build(j, "vars")
+        text = program_text(prog)
+        ok = True
+        for i, t in enumerate(ptys):
+            old_s, new_s = "let x%d: %s = witness::A%d;" % (i, ty_str(t), i), "let x%d: %s = witness::A%d;" % (i, j["params"][i], i)
+            if old_s not in text:
+                ok = False
+            text = text.replace(old_s, new_s, 1)
+        if j["result"] != j["rresult"]:
+            probe = ": %s = jet::%s(" % (ty_str(rty), name)
+            if probe in text:
+                text = text.replace(probe, ": %s = jet::%s(" % (j["result"], name), 1)
+        if not ok:
+            raise RuntimeError("alias variant: the generated text of %s has an unexpected shape" % name)
+        out.append(E.Case("jet-%s-alias-names-uf" % name, prog, text=text, interpret=frozenset([name]), validate=False,
+                          tags={"jet": name, "variant": "types written with the library's alias names", "params": j["params"], "result": j["result"],
+                                "mode": "jet under test uninterpreted"}))
     # reserved jets and unknown jets must be rejected
     out.append(E.Case("jet-reserved-verify", Program([], Block([ExprStmt(JetCall("verify", [Wit("A0", BOOL)], UNIT))])),
                       expect_reject=True, validate=False, debug_modes=(False,), tags={"kind": "reject"}))
@@ -127,7 +150,7 @@ def main():
         technique="SMT (z3, QF_UFBV): jet under test as an uninterpreted function on both sides; equivalence of emitted DAG and source-level call for all argument values and all jet meanings",
         functions=["compile.rs: Call::compile (Jet), SingleExpression::tuple / BTreeSlice::fold (argument tupling), with_debug_symbol",
                    "ast.rs: jet lookup, reserved jets, arity and result type check", "jet.rs: source_type/target_type (as the source of the generated signatures)"],
-        bounds={"jets": "every jet of Elements::ALL as listed by the library at check time", "call_shapes": ["witness arguments", "arguments through variables/blocks/parentheses", "call inside a custom function"]},
+        bounds={"jets": "every jet of Elements::ALL as listed by the library at check time", "call_shapes": ["witness arguments", "arguments through variables/blocks/parentheses", "call inside a custom function", "types written with the builtin alias names of the signature table (every jet whose signature has one)"]},
         outside=["whether each signature in jet.rs is the documented one (needs an external table; not a solver question)",
                  "the arithmetic meaning of jets: bit-vector models exist for ~300 jets and are validated against the real C jets on the solver-chosen succeeding/failing points only"],
         assumptions=["z3 4.8.12 is sound on QF_UFBV", "the product layout of the argument tuple follows book/src/type_casting.md (simsym/src.py: to_bits)"],
